@@ -143,9 +143,11 @@ Http::One::Parser::cleanMimePrefix()
  *  received obs-fold with one or more SP octets prior to interpreting
  *  the field value or forwarding the message downstream."
  */
-void
+bool
 Http::One::Parser::unfoldMime()
 {
+    bool foldedFramingField = false;
+
     Tokenizer tok(mimeHeaderBlock_);
     const auto szLimit = mimeHeaderBlock_.length();
     mimeHeaderBlock_.clear();
@@ -162,10 +164,23 @@ Http::One::Parser::unfoldMime()
 
         if (lfLen && tok.skipAll(CharacterSet::WSP)) { // obs-fold!
             mimeHeaderBlock_.append(all.substr(0, blobLen));
+
+            // the field being unfolded starts after the last LF copied so far
+            const auto lastLf = mimeHeaderBlock_.rfind('\n');
+            const auto field = mimeHeaderBlock_.substr(lastLf == SBuf::npos ? 0 : lastLf + 1);
+            static const SBuf framingNames[] = { SBuf("Content-Length"), SBuf("Transfer-Encoding") };
+            for (const auto &name: framingNames) {
+                if (field.length() > name.length() && field.startsWith(name, caseInsensitive) &&
+                        (field[name.length()] == ':' || xisspace(field[name.length()])))
+                    foldedFramingField = true;
+            }
+
             mimeHeaderBlock_.append(' '); // replace one obs-fold with one SP
         } else
             mimeHeaderBlock_.append(all.substr(0, blobLen + crLen + lfLen));
     }
+
+    return !foldedFramingField;
 }
 
 bool
@@ -206,8 +221,13 @@ Http::One::Parser::grabMimeBlock(const char *which, const size_t limit)
             }
 
             cleanMimePrefix();
-            if (containsObsFold)
-                unfoldMime();
+            if (containsObsFold && !unfoldMime()) {
+                // HttpHeader::parse() cannot see (and reject) this obs-fold anymore
+                debugs(33, ErrorLevel(), "obs-fold in a framing-sensitive " << which << " header field");
+                parseStatusCode = Http::scInvalidHeader;
+                parsingStage_ = HTTP_PARSE_DONE;
+                return false;
+            }
 
             debugs(74, 5, "mime header (0-" << mimeHeaderBytes << ") {" << mimeHeaderBlock_ << "}");
 
